@@ -365,9 +365,301 @@ def gen_parser(src):
     return '\n'.join(out) + '\n', fp
 
 
+
+# ---------------------------------------------------------------- cal.py / prop.py tables
+
+def str_seq(node, env=None):
+    """tuple/list of string constants (or a reference Class.attr resolved through env)"""
+    if isinstance(node, (ast.Tuple, ast.List)):
+        return [const(e) for e in node.elts]
+    if isinstance(node, ast.Attribute) and isinstance(node.value, ast.Name) and env is not None:
+        return env[node.value.id][node.attr]
+    raise Untranslatable(f'not a sequence of strings: {ast.dump(node)[:80]}')
+
+
+def td_seconds(call):
+    """timedelta(days=.., hours=.., minutes=.., seconds=..) -> seconds"""
+    if not (isinstance(call, ast.Call) and isinstance(call.func, ast.Name) and call.func.id == 'timedelta'
+            and not call.args):
+        raise Untranslatable(f'not a timedelta(...) call: {ast.dump(call)[:80]}')
+    unit = {'days': 86400, 'hours': 3600, 'minutes': 60, 'seconds': 1, 'weeks': 604800}
+    total = 0
+    for kw in call.keywords:
+        if kw.arg not in unit:
+            raise Untranslatable(f'timedelta keyword {kw.arg}')
+        total += unit[kw.arg] * const(kw.value)
+    return total
+
+
+def td_list(node):
+    """[timedelta(days=d) for d in (..)] + [timedelta(..), ...] -> list of seconds"""
+    if isinstance(node, ast.BinOp) and isinstance(node.op, ast.Add):
+        return td_list(node.left) + td_list(node.right)
+    if isinstance(node, ast.List):
+        return [td_seconds(e) for e in node.elts]
+    if isinstance(node, ast.ListComp) and len(node.generators) == 1:
+        g = node.generators[0]
+        if not (isinstance(g.target, ast.Name) and isinstance(g.iter, (ast.Tuple, ast.List)) and not g.ifs):
+            raise Untranslatable('skip-search comprehension shape')
+        var = g.target.id
+        out = []
+        for e in g.iter.elts:
+            val = const(e)
+            call = node.elt
+            if not (isinstance(call, ast.Call) and isinstance(call.func, ast.Name) and call.func.id == 'timedelta'
+                    and len(call.keywords) == 1 and isinstance(call.keywords[0].value, ast.Name)
+                    and call.keywords[0].value.id == var):
+                raise Untranslatable('skip-search comprehension element')
+            unit = {'days': 86400, 'hours': 3600, 'minutes': 60, 'seconds': 1}[call.keywords[0].arg]
+            out.append(unit * val)
+        return out
+    raise Untranslatable(f'not a timedelta list: {ast.dump(node)[:80]}')
+
+
+def date_const(node):
+    if isinstance(node, ast.Call) and isinstance(node.func, ast.Name) and node.func.id == 'date' and len(node.args) == 3:
+        return [const(a) for a in node.args]
+    raise Untranslatable('not a date(y, m, d) constant')
+
+
+def dict_of_str(node, value=lambda n: const(n)):
+    """CaselessDict({...}) or {...} with string keys"""
+    if isinstance(node, ast.Call) and node.args:
+        node = node.args[0]
+    if not isinstance(node, ast.Dict):
+        raise Untranslatable(f'not a dict literal: {ast.dump(node)[:60]}')
+    return [(const(k), value(v)) for k, v in zip(node.keys, node.values)]
+
+
+def name_of(node):
+    if isinstance(node, ast.Name):
+        return node.id
+    raise Untranslatable(f'not a name: {ast.dump(node)[:60]}')
+
+
+def literal_seqs_in(func):
+    """all tuple/list literals of >=2 string constants inside a function, in source order"""
+    out = []
+    for n in ast.walk(func):
+        if isinstance(n, (ast.Tuple, ast.List)) and len(n.elts) >= 2 and all(
+                isinstance(e, ast.Constant) and isinstance(e.value, str) for e in n.elts):
+            out.append((n.lineno, n.col_offset, [e.value for e in n.elts]))
+    return [x[2] for x in sorted(out)]
+
+
+COMPONENT_ATTRS = ('name', 'canonical_order', 'required', 'singletons', 'exclusive', 'multiple', 'ignore_exceptions')
+
+
+def gen_cal(src):
+    tree = parse(os.path.join(src, 'cal.py'))
+    out = []
+    w = out.append
+    fp = {}
+    tables = {}
+    w('/- GENERATED by tools/extract.py from src/icalendar/cal.py. Do not edit. -/')
+    w('import ICal.Model.PyStr')
+    w('namespace ICal.Gen')
+    w('')
+    # component classes
+    env = {}
+    classes = []
+    for node in tree.body:
+        if isinstance(node, ast.ClassDef) and any(isinstance(b, ast.Name) and b.id in ('Component', 'CaselessDict') for b in node.bases):
+            if node.name == 'ComponentFactory':
+                continue
+            attrs = {'name': None, 'canonical_order': [], 'required': [], 'singletons': [], 'exclusive': [],
+                     'multiple': [], 'ignore_exceptions': False}
+            for st in node.body:
+                if isinstance(st, ast.Assign) and len(st.targets) == 1 and isinstance(st.targets[0], ast.Name) \
+                        and st.targets[0].id in COMPONENT_ATTRS:
+                    key = st.targets[0].id
+                    if key == 'name':
+                        attrs[key] = const(st.value)
+                    elif key == 'ignore_exceptions':
+                        attrs[key] = bool(const(st.value))
+                    else:
+                        attrs[key] = str_seq(st.value, env)
+            env[node.name] = attrs
+            if node.name != 'Component':
+                classes.append((node.name, attrs))
+    tables['components'] = {c: a for c, a in classes}
+    w('structure CompClass where')
+    w('  cls : Str')
+    w('  name : Str')
+    w('  canonicalOrder : List Str')
+    w('  required : List Str')
+    w('  singletons : List Str')
+    w('  exclusive : List Str')
+    w('  multiple : List Str')
+    w('  ignoreExceptions : Bool')
+    w('')
+    w('def compClasses : List CompClass := [')
+    rows = []
+    for cname, a in classes:
+        rows.append(f'  {{ cls := {lstr(cname)}, name := {lstr(a["name"] or "")}, canonicalOrder := {lstrlist(a["canonical_order"])},\n'
+                    f'    required := {lstrlist(a["required"])}, singletons := {lstrlist(a["singletons"])},\n'
+                    f'    exclusive := {lstrlist(a["exclusive"])}, multiple := {lstrlist(a["multiple"])},\n'
+                    f'    ignoreExceptions := {"true" if a["ignore_exceptions"] else "false"} }}')
+    w(',\n'.join(rows) + ']')
+    w('')
+    # component factory
+    cf = find_func(tree, '__init__', 'ComponentFactory')
+    fac = []
+    for st in cf.body:
+        if isinstance(st, ast.Assign) and isinstance(st.targets[0], ast.Subscript) and isinstance(st.targets[0].value, ast.Name) \
+                and st.targets[0].value.id == 'self':
+            fac.append((const(st.targets[0].slice), name_of(st.value)))
+    if not fac:
+        raise Untranslatable('ComponentFactory.__init__: no registrations found')
+    tables['component_factory'] = fac
+    w('/-- `ComponentFactory`: component name -> class -/')
+    w('def componentFactory : List (Str × Str) := [' + ', '.join(f'({lstr(k)}, {lstr(v)})' for k, v in fac) + ']')
+    inline = dict_of_str(find_assign(tree.body, 'INLINE'))
+    tables['inline'] = [k for k, _ in inline]
+    w(f'def inlineNames : List Str := {lstrlist([k for k, _ in inline])}')
+    w('')
+    # literals inside Component.add and Component.from_ical
+    comp = find_class(tree, 'Component')
+    add = [n for n in comp.body if isinstance(n, ast.FunctionDef) and n.name == 'add'][0]
+    seqs = literal_seqs_in(add)
+    if len(seqs) != 2:
+        raise Untranslatable(f'Component.add: expected two name literals, found {seqs}')
+    tables['add_utc_names'], tables['add_list_names'] = seqs
+    w('/-- `Component.add`: names whose datetime values are forced to UTC; names whose list values are not split -/')
+    w(f'def addUtcNames : List Str := {lstrlist(seqs[0])}')
+    w(f'def addListNames : List Str := {lstrlist(seqs[1])}')
+    fi = [n for n in comp.body if isinstance(n, ast.FunctionDef) and n.name == 'from_ical'][0]
+    dn = None
+    for n in ast.walk(fi):
+        if isinstance(n, ast.Assign) and isinstance(n.targets[0], ast.Name) and n.targets[0].id == 'datetime_names':
+            dn = str_seq(n.value)
+    if dn is None:
+        raise Untranslatable('Component.from_ical: datetime_names not found')
+    tables['datetime_names'] = dn
+    w(f'def datetimeNames : List Str := {lstrlist(dn)}')
+    # does from_ical dispatch on the upper-cased name?  (uname == 'FREEBUSY', uname in datetime_names)
+    cmps = [ast.unparse(n) for n in ast.walk(fi) if isinstance(n, ast.Compare)]
+    lb = lambda b: 'true' if b else 'false'
+    w('def fromIcalFreebusyOnUname : Bool := ' + lb("uname == 'FREEBUSY'" in cmps))
+    w('def fromIcalDatetimeOnUname : Bool := ' + lb(any(c.startswith('uname in datetime_names') for c in cmps)))
+    w('def fromIcalTextRaw : Bool := ' + lb(any('raw_value' in ast.unparse(n) for n in ast.walk(fi) if isinstance(n, ast.Call))))
+    w('')
+    tz = find_class(tree, 'Timezone')
+    steps = td_list(find_assign(tz.body, '_from_tzinfo_skip_search'))
+    tables['skip_search'] = steps
+    w('/-- `Timezone._from_tzinfo_skip_search` in seconds -/')
+    w('def skipSearch : List Nat := [' + ', '.join(str(x) for x in steps) + ']')
+    fd = date_const(find_assign(tz.body, '_DEFAULT_FIRST_DATE'))
+    ld = date_const(find_assign(tz.body, '_DEFAULT_LAST_DATE'))
+    tables['default_dates'] = [fd, ld]
+    w(f'def defaultFirstDate : Nat × Nat × Nat := ({fd[0]}, {fd[1]}, {fd[2]})')
+    w(f'def defaultLastDate : Nat × Nat × Nat := ({ld[0]}, {ld[1]}, {ld[2]})')
+    w('')
+    w('end ICal.Gen')
+    for cls, fns in (('Component', ['_encode', 'add', 'property_items', 'from_ical', 'content_line', 'content_lines',
+                                    'to_ical', '__eq__', '_walk', 'walk', 'copy']),
+                     ('Calendar', ['get_used_tzids', 'get_missing_tzids', 'add_missing_timezones']),
+                     ('Timezone', ['_extract_offsets', 'get_transitions', 'from_tzinfo', 'from_tzid', 'to_tz']),
+                     ('Event', ['_get_start_end_duration']), ('Todo', ['_get_start_end_duration']),
+                     ('Alarm', ['triggers'])):
+        for fn in fns:
+            try:
+                fp[f'cal.{cls}.{fn}'] = fingerprint(find_func(tree, fn, cls))
+            except Untranslatable:
+                fp[f'cal.{cls}.{fn}'] = 'missing'
+    for fn in ('create_utc_property', 'create_single_property', '_get_duration', '_set_duration', '_del_duration'):
+        fp[f'cal.{fn}'] = fingerprint(find_func(tree, fn))
+    return '\n'.join(out) + '\n', fp, tables
+
+
+def gen_prop(src):
+    tree = parse(os.path.join(src, 'prop.py'))
+    out = []
+    w = out.append
+    fp = {}
+    tables = {}
+    w('/- GENERATED by tools/extract.py from src/icalendar/prop.py. Do not edit. -/')
+    w('import ICal.Model.PyStr')
+    w('namespace ICal.Gen')
+    w('')
+    tf = find_class(tree, 'TypesFactory')
+    tmap = dict_of_str(find_assign(tf.body, 'types_map'))
+    tables['types_map'] = tmap
+    w('/-- `TypesFactory.types_map`: property / parameter name -> type key (last entry wins for a repeated key) -/')
+    w('def typesMap : List (Str × Str) := [' + ', '.join(f'({lstr(k)}, {lstr(v)})' for k, v in tmap) + ']')
+    init = [n for n in tf.body if isinstance(n, ast.FunctionDef) and n.name == '__init__'][0]
+    reg = []
+    for st in init.body:
+        if isinstance(st, ast.Assign) and isinstance(st.targets[0], ast.Subscript) and isinstance(st.targets[0].value, ast.Name) \
+                and st.targets[0].value.id == 'self':
+            reg.append((const(st.targets[0].slice), name_of(st.value)))
+    if not reg:
+        raise Untranslatable('TypesFactory.__init__: no registrations')
+    tables['type_registry'] = reg
+    w('/-- `TypesFactory()`: type key -> value class -/')
+    w('def typeRegistry : List (Str × Str) := [' + ', '.join(f'({lstr(k)}, {lstr(v)})' for k, v in reg) + ']')
+    fpn = [n for n in tf.body if isinstance(n, ast.FunctionDef) and n.name == 'for_property'][0]
+    if ast.unparse(first_return(fpn)) != "self[self.types_map.get(name, 'text')]":
+        raise Untranslatable('TypesFactory.for_property changed shape: ' + ast.unparse(first_return(fpn)))
+    w("def typesDefault : Str := " + lstr('text'))
+    w('')
+    rc = find_class(tree, 'vRecur')
+    order = str_seq(find_assign(rc.body, 'canonical_order'))
+    tables['recur_order'] = order
+    w(f'def recurCanonicalOrder : List Str := {lstrlist(order)}')
+    rtypes = dict_of_str(find_assign(rc.body, 'types'), name_of)
+    tables['recur_types'] = rtypes
+    w('def recurTypes : List (Str × Str) := [' + ', '.join(f'({lstr(k)}, {lstr(v)})' for k, v in rtypes) + ']')
+    wd = dict_of_str(find_assign(find_class(tree, 'vWeekday').body, 'week_days'))
+    tables['week_days'] = wd
+    w('def weekDays : List (Str × Nat) := [' + ', '.join(f'({lstr(k)}, {v})' for k, v in wd) + ']')
+    fr = dict_of_str(find_assign(find_class(tree, 'vFrequency').body, 'frequencies'))
+    tables['frequencies'] = [k for k, _ in fr]
+    w(f'def frequencies : List Str := {lstrlist([k for k, _ in fr])}')
+    dr = regex_source(tree, 'DURATION_REGEX')
+    if dr != '([-+]?)P(?:(\\d+)W)?(?:(\\d+)D)?(?:T(?:(\\d+)H)?(?:(\\d+)M)?(?:(\\d+)S)?)?$':
+        raise Untranslatable(f'DURATION_REGEX changed: {dr!r}')
+    wr = regex_source(tree, 'WEEKDAY_RULE')
+    if wr != '(?P<signal>[+-]?)(?P<relative>[\\d]{0,2})(?P<weekday>[\\w]{2})$':
+        raise Untranslatable(f'WEEKDAY_RULE changed: {wr!r}')
+    w('/-- DURATION_REGEX and WEEKDAY_RULE have the shapes the hand-written matchers implement -/')
+    w('def durationRegexShape : Bool := true')
+    w('def weekdayRuleShape : Bool := true')
+    w('')
+    w('end ICal.Gen')
+    for cls in ('vBinary', 'vBoolean', 'vText', 'vCalAddress', 'vFloat', 'vInt', 'vDDDLists', 'vCategory', 'TimeBase',
+                'vDDDTypes', 'vDate', 'vDatetime', 'vDuration', 'vPeriod', 'vWeekday', 'vFrequency', 'vMonth',
+                'vRecur', 'vTime', 'vUri', 'vGeo', 'vUTCOffset', 'vInline'):
+        try:
+            node = find_class(tree, cls)
+            for st in node.body:
+                if isinstance(st, ast.FunctionDef):
+                    fp[f'prop.{cls}.{st.name}'] = fingerprint(st)
+        except Untranslatable:
+            fp[f'prop.{cls}'] = 'missing'
+    return '\n'.join(out) + '\n', fp, tables
+
+
+def gen_misc(src):
+    """fingerprints only: alarms.py, caselessdict.py, timezone/*.py, tools.py"""
+    fp = {}
+    for rel in ('alarms.py', 'caselessdict.py', 'tools.py', 'timezone/tzp.py', 'timezone/zoneinfo.py',
+                'timezone/pytz.py', 'timezone/tzid.py'):
+        tree = parse(os.path.join(src, rel))
+        mod = rel[:-3].replace('/', '.')
+        for node in tree.body:
+            if isinstance(node, ast.FunctionDef):
+                fp[f'{mod}.{node.name}'] = fingerprint(node)
+            elif isinstance(node, ast.ClassDef):
+                for st in node.body:
+                    if isinstance(st, ast.FunctionDef):
+                        fp[f'{mod}.{node.name}.{st.name}'] = fingerprint(st)
+    return None, fp, {}
+
+
 # ---------------------------------------------------------------- driver
 
-GENERATORS = [('Parser.lean', gen_parser)]
+GENERATORS = [('Parser.lean', gen_parser), ('Cal.lean', gen_cal), ('Prop.lean', gen_prop), (None, gen_misc)]
 
 
 def write_if_changed(path, content):
@@ -394,15 +686,20 @@ def main(argv):
     fps = {}
     changed = []
     failed = []
+    tables = {}
     for fname, gen in GENERATORS:
         try:
-            content, fp = gen(src)
-        except (Untranslatable, SyntaxError, KeyError, OSError) as e:
+            res = gen(src)
+        except (Untranslatable, SyntaxError, KeyError, IndexError, OSError) as e:
             failed.append(f'{fname}: {type(e).__name__}: {e}')
             continue
+        content, fp = res[0], res[1]
+        if len(res) > 2:
+            tables.update(res[2])
         fps.update(fp)
-        if write_if_changed(os.path.join(out, fname), content):
+        if fname and write_if_changed(os.path.join(out, fname), content):
             changed.append(fname)
+    write_if_changed(os.path.join(out, 'tables.json'), json.dumps(tables, indent=1, sort_keys=True) + '\n')
     write_if_changed(os.path.join(out, 'fingerprints.json'), json.dumps(fps, indent=1, sort_keys=True) + '\n')
     print(json.dumps({'changed': changed, 'failed': failed}))
     return 3 if failed else 0
